@@ -150,6 +150,11 @@ def run(ctx):
             for cl in lib.bodies_of(F, fn)[1:]:
                 if any(call_matches(t, lib.ATOMIC_STORE) and ({'.ValueTable.filled', '.ValueTable.last_removed'} & lib.receiver_fields(cl, t, 0)) for _, t in cl.calls()):
                     stores += [u[1] for u in lib.closure_use_sites(F, cl) if u[0] is b]
+        if not stores:
+            # ... or into a private helper of the function: its call stands for them
+            for hb in lib.family(F, fn):
+                if hb is not b and '{closure' not in hb.path and any(call_matches(t, lib.ATOMIC_STORE) and ({'.ValueTable.filled', '.ValueTable.last_removed'} & lib.receiver_fields(hb, t, 0)) for _, t in hb.calls()):
+                    stores += b.call_sites(hb.path)
         ctx.ob('5a slot-counter-stores %s' % fn, 'anchor', fn, 'the function updates filled / last_removed', len(stores) >= 1 and (bool(some) or bool(lib.must_sites(b, ['re:RwLock.*::write$']))), 'stores %s prune %s' % (stores, len(some)))
         for i, s in enumerate(stores):
             live = lib.guards_live_at(b, s, removed_edges=some)
